@@ -172,6 +172,8 @@ func HC07Decide1x1() { hc07Decide(1, 1, false) }
 func HC07Decide1x3() { hc07Decide(1, 3, false) }
 func HC07Decide2x2() { hc07Decide(2, 2, false) }
 func HC07Decide3x3() { hc07Decide(3, 3, false) }
+func HC07Decide3x1() { hc07Decide(3, 1, false) }
+func HC07Decide2x3() { hc07Decide(2, 3, false) }
 
 // HC07DecideHistory: the same after an earlier request on the same service.
 func HC07DecideHistory() { hc07Decide(2, 2, true) }
